@@ -13,7 +13,7 @@ def gen_ops(rng, n, final):
     ops = []
     for _ in range(n):
         r = rng.random()
-        ops.append(["hybrid"] if r < 0.3 else (["hourly"] if r < 0.5 else (["setH", rng.choice([60.0, 88.0, 100.0, 135.0])] if r < 0.8 else ["size"])))
+        ops.append(["hybrid"] if r < 0.3 else (["hourly"] if r < 0.5 else (["setH", rng.choice([60.0, 88.0, 100.0, 135.0, 190.0, 45.0])] if r < 0.8 else ["size"])))      # heights far from the nominal one included
     return ops + final
 
 
@@ -26,7 +26,7 @@ def run(chk):
     cases = []
     for k in range(3 if quick else 9):
         fin = finals[k % 3]
-        base = {"nx": 1, "ny": rng.choice([1, 2]), "months": (24 if k % 3 == 1 else 12), "H": 100.0, "heights": [60.0, 97.5, 135.0], "loads": {"kind": ["balanced", "heating", "cooling"][k % 3], "scale": 6000.0, "seed": k + 1},
+        base = {"nx": 1, "ny": rng.choice([1, 2]), "months": (24 if k % 3 == 1 else 12), "H": 100.0, "heights": [40.0, 97.5, 135.0, 200.0], "loads": {"kind": ["balanced", "heating", "cooling"][k % 3], "scale": 6000.0, "seed": k + 1},
                 "pipe": ["SINGLEUTUBE", "DOUBLEUTUBESERIES", "COAXIAL"][k % 3]}
         hs = [fin] + [gen_ops(rng, rng.randrange(1, 5), fin) for _ in range(3)]
         for h in hs:
@@ -68,6 +68,8 @@ def run(chk):
                  {"cfg": cfg("BIZONEDRECTANGLE", "COAXIAL", months=12), "other": cfg("BIRECTANGLE", months=12), "order_seed": 11}]
     else:
         hist.append({"cfg": cfg("RECTANGLE", "DOUBLEUTUBEPARALLEL", months=12, flow=("SYSTEM", 2.0)), "other": cfg(months=12), "order_seed": 3})
+    # RowWise (rotation limits are converted between degrees and radians on the way in): set_design twice, nothing else re-set
+    hist.append({"cfg": cfg("ROWWISE", months=12, loads={"kind": "balanced", "scale": 30000.0, "seed": 2}), "order_seed": 2, "variants": ["set_design_twice"]})
     # one more process whose FIRST design differs from the configuration only in grout / pipe conductivity
     hist.append({"cfg": cfg(months=12, loads={"kind": "cooling", "scale": 28000.0, "seed": 9}), "order_seed": 1, "similar_first": True})
     with ThreadPoolExecutor(max_workers=NPROC) as ex:
